@@ -23,6 +23,7 @@ fn base_cfg(d: &Draw, dir: &std::path::Path) -> ServerCfg {
     if d.chance("swarm.flag.duplicate_packets", 1, 8) {
         srv.dup = Some("1".into());
     }
+    srv.arg_rot = d.range("swarm.arg_rotation", 8) as usize;
     srv
 }
 
@@ -53,7 +54,7 @@ pub fn policy(_tier: Tier, w: &Arc<World>) -> Scn {
         std::fs::create_dir_all(dir.join("sub")).unwrap();
         std::fs::write(dir.join("sub/c.bin"), content(1300, 13)).unwrap();
     }
-    let names = ["a.bin", "b.bin", "sub/c.bin", "new1.bin", "new2.bin", "sub/new.bin", "missing.bin", "/a.bin", "sub\\c.bin"];
+    let names = ["a.bin", "b.bin", "sub/c.bin", "new1.bin", "new2.bin", "sub/new.bin", "missing.bin", "/a.bin", "sub\\c.bin", "nodir/missing.bin", "a.bin/x.bin", "sub/deeper/none.bin"];
     let n = 2 + d.range("swarm.requests", 5) as usize;
     let mut reqs: Vec<ReqInfo> = vec![];
     let mut desc = format!("policy {} distinct_dirs={distinct} requests=[", srv.describe());
@@ -207,6 +208,11 @@ pub fn confine(_tier: Tier, w: &Arc<World>) -> Scn {
         let mut xc = XferCfg::new(srv.addr(), &name);
         xc.resend_request = false;
         xc.retries = 2;
+        if d.chance("swarm.req.options", 1, 3) {
+            // options, honourable or not, must not change whether an escaping name is refused with an ERROR
+            let (k, v) = d.pick("swarm.req.option", &[("blksize", "1024"), ("timeout", "0"), ("windowsize", "0"), ("blksize", "7"), ("blksize", "65465"), ("windowsize", "4"), ("tsize", "0")]);
+            xc.opts.push((k.to_string(), v.to_string()));
+        }
         // some transfers are aborted by the client: a read request must leave the disk alone then, too
         let abort = d.chance("swarm.req.abort", 1, 4);
         if abort {
@@ -372,7 +378,7 @@ fn hostile_datagram(d: &Draw) -> Vec<u8> {
     let names = ["blksize", "timeout", "tsize", "windowsize", "BLKSIZE", "WindowSize", "blksize\u{0}", "unknown"];
     let long_a = "m".repeat(480);
     let long_euro: Vec<String> = (0..4).map(|k| format!("{}{}", "a".repeat(k), "\u{20ac}".repeat(160))).collect();
-    let files = ["probe.bin", "", "missing", "../x", "a/b/c", "probe.bin\u{0}x", long_a.as_str(), long_euro[0].as_str(), long_euro[1].as_str(), long_euro[2].as_str(), long_euro[3].as_str()];
+    let files = ["probe.bin", "", "missing", "../x", "a/b/c", "probe.bin\u{0}x", "..", "docs/..", "a/b/../..", ".", "/", "\\", "probe.bin/..", long_a.as_str(), long_euro[0].as_str(), long_euro[1].as_str(), long_euro[2].as_str(), long_euro[3].as_str()];
     let mut base: Vec<u8> = match d.range("hostile.kind", 10) {
         0 | 1 | 2 | 3 => {
             // request with boundary option values
